@@ -93,6 +93,16 @@ func scenarios(r *hxlib.Run) []scn {
 		add(scn{Writer: "fetch", Old: old, OldLen: small(), NewLen: 100000 + small(), Fail: "short"})
 		add(scn{Writer: "fetch", Old: old, OldLen: small(), NewLen: small(), Fail: "404"})
 	}
+	// signed downloads: the resource and its signature file are two published files; each is the destination of
+	// one scenario (the other one is named in also=)
+	for _, v := range []string{"signed-main", "signed-sig"} {
+		add(scn{Writer: "fetch", Old: "absent", NewLen: small(), Var: v})
+		add(scn{Writer: "fetch", Old: "absent", NewLen: 70000 + small(), Var: v})
+	}
+	add(scn{Writer: "fetch", Old: "file", OldLen: small(), NewLen: small(), Var: "signed-main"})
+	add(scn{Writer: "fetch", Old: "absent", NewLen: small(), Var: "signed-sig", Fail: "short"})
+	add(scn{Writer: "fetch", Old: "absent", NewLen: small(), Var: "missing-sig"})
+	add(scn{Writer: "fetch", Old: "absent", NewLen: multi(), Var: "missing-sig"})
 	// updater.UnpackResources (zip)
 	for _, v := range []string{"-", "deep"} {
 		add(scn{Writer: "unpack-zip", Old: "absent", NewLen: small(), Var: v})
@@ -151,6 +161,14 @@ func scenarios(r *hxlib.Run) []scn {
 			s.Fail = []string{"-", "-", "-", "short", "404"}[r.Rng.Intn(5)]
 			if s.Fail == "short" && s.NewLen < 10 {
 				s.NewLen = 5000
+			}
+			switch r.Rng.Intn(5) {
+			case 0:
+				s.Var = "signed-main"
+			case 1:
+				s.Var, s.Old = "signed-sig", "absent"
+			case 2:
+				s.Var, s.Old, s.Fail = "missing-sig", "absent", "-"
 			}
 		case "unpack-zip":
 			s.TmpMode = "same"
